@@ -125,7 +125,7 @@ def search(rep: C.Report, tier: str, broken):
                 "widths*Tn": (np.asarray(res.wallWidths) * Tn).tolist(), "offsets": np.asarray(res.wallOffsets).tolist(),
                 "Tplus/Tn": res.temperaturePlus / Tn}
     xbase = xrun(1.0)
-    for u in ((1e-2, 10.0, 30.0) if tier == "quick" else (1e-2, 0.1, 10.0, 30.0, 100.0)):
+    for u in ((1e-2, 30.0, 100.0) if tier == "quick" else (1e-2, 0.1, 10.0, 30.0, 100.0)):
         rep.case(key=("xsm-manager", u))
         rep.count("xsm manager runs")
         try:
@@ -134,7 +134,7 @@ def search(rep: C.Report, tier: str, broken):
             rep.violation(f"two-field model: WallGoManager pipeline fails under the unit factor {u} although it works for the factor 1",
                           {"unit_factor": u, "error": f"{type(ex).__name__}: {str(ex)[:300]}", "base": xbase,
                            "how": "harness/manager_common.new_xsm_manager(u=u)[0].solveWall(settings())"},
-                          finding_key=KEY_LARGE if u >= 30 else "C07:xsm:raises")
+                          finding_key="C07:xsm:raises")
             continue
         bad = [q for q, t in (("vJ", 1e-6), ("vLTE", 5e-5), ("Tplus/Tn", 1e-3)) if abs(xbase[q] - got[q]) > t * abs(xbase[q])]
         if xbase["success"] != got["success"] or got["vw"] is None or abs(xbase["vw"] - got["vw"]) > 2e-3:
